@@ -124,19 +124,36 @@ def replay_case(args):
     S = at.ProjectSettings(sim_start=2000, sim_end=2000 + K * dt, sim_dt=dt)
     tv = S.tvec
     if len(tv) != K + 1:
-        return dict(mism=[("tvec", len(tv), K + 1)], obs=None, skipped=None)
+        return dict(mism=[("tvec", len(tv), K + 1)], obs=None, skipped=None, trace=None)
     if any(h["ill"] for h in hist):
-        return dict(mism=[], obs=None, skipped="ill-posed")
+        return dict(mism=[], obs=None, skipped="ill-posed", trace=None)
     pv = [[fr(x) for x in h["pv"]] for h in hist]
     Fw, ps = WD.build_parset(w, pv, tv)
     st0 = case.get("init", hist[0]["st"])
     WD.set_state(w, ps, [[fr(x) for x in rows] for rows in st0])
     mism = []
+    from . import observe as O
+
     try:
-        r = at.run_model(S, Fw, ps)
+        with O.LinkObserver():
+            r = at.run_model(S, Fw, ps)
+    except ValueError as ex:
+        if "broadcast" in str(ex):  # the injected state has the specification's number of rows; the code allocated another
+            ps.initialization = None
+            m0 = at.Model(S, Fw, ps)
+            got = {c["name"]: int(m0.get_pop(c["pop"]).get_comp(c["base"])._vals.shape[0]) for c in w["comps"] if c["kind"] == "timed"}
+            want = {c["name"]: c["rows"] for c in w["comps"] if c["kind"] == "timed"}
+            return dict(mism=[("rows", 0, got, want)], obs=None, skipped=None, trace=None)
+        return dict(mism=[("exception", type(ex).__name__, str(ex)[:300])], obs=None, skipped=None, trace=None)
     except Exception as ex:  # the spec says this behaviour exists; the code refuses it
-        return dict(mism=[("exception", type(ex).__name__, str(ex)[:300])], obs=None, skipped=None)
+        return dict(mism=[("exception", type(ex).__name__, str(ex)[:300])], obs=None, skipped=None, trace=None)
     m = r.model
+    trace = None
+    if want_obs:
+        path = os.path.join(C.scratch(), "rep_%d.ndjson" % os.getpid())
+        O.record_run(m, path, wid=wid)
+        trace = open(path).read().splitlines()
+        os.remove(path)
     links = [WD.find_link(m, w, l) for l in w["links"]]
     comps = [m.get_pop(c["pop"]).get_comp(c["base"]) for c in w["comps"]]
     obs = dict(w=wid, steps=[]) if want_obs else None
@@ -158,7 +175,7 @@ def replay_case(args):
     for c, o, e in zip(w["comps"], ofin, case["final"]):
         if len(o) != len(e) or not all(close(a, fr(b)) for a, b in zip(o, e)):
             mism.append(("final", K, c["name"], o, [str(fr(b)) for b in e]))
-    return dict(mism=mism[:8], obs=obs, skipped=None)
+    return dict(mism=mism[:8], obs=None, skipped=None, trace=trace)
 
 
 def replay(worlds, cases, want_obs=False, procs=None):
@@ -171,6 +188,16 @@ def replay(worlds, cases, want_obs=False, procs=None):
         return [replay_case(a) for a in args]
     with ProcessPoolExecutor(procs, initializer=_init_pool, initargs=(by_id,)) as ex:
         return list(ex.map(replay_case, args, chunksize=max(1, len(args) // (procs * 8))))
+
+
+def pool_map(worlds, fn, args, procs=None):
+    by_id = {w["id"]: w for w in worlds}
+    procs = procs or C.NCPU
+    if len(args) < 8:
+        _init_pool(by_id)
+        return [fn(a) for a in args]
+    with ProcessPoolExecutor(procs, initializer=_init_pool, initargs=(by_id,)) as ex:
+        return list(ex.map(fn, args, chunksize=max(1, len(args) // (procs * 8))))
 
 
 def stratified(cases, n, rng):
